@@ -6,6 +6,7 @@ package topology
 import (
 	"encoding/json"
 	"os"
+	"path/filepath"
 	"sync"
 )
 
@@ -25,20 +26,47 @@ func (ts *TopologyStore) StoreTopology(topology *NetworkTopology) error {
 	ts.mu.Lock()
 	defer ts.mu.Unlock()
 
-	f, err := os.OpenFile(ts.path, os.O_RDWR|os.O_CREATE|os.O_TRUNC, 0755)
-	if err != nil {
-
-		return err
-	}
-	defer f.Close()
-
 	kb, err := json.Marshal(&topology)
 	if err != nil {
 		return err
 	}
 
-	_, err = f.Write(kb)
-	return err
+	return writeFileAtomic(ts.path, kb, 0755)
+}
+
+// writeFileAtomic replaces the file at path with data without ever exposing an
+// empty or partially written file: the data is written to a temporary file in
+// the same directory, flushed to disk and then renamed over path. If anything
+// fails the temporary file is removed and path is left untouched.
+func writeFileAtomic(path string, data []byte, perm os.FileMode) (err error) {
+	if info, statErr := os.Stat(path); statErr == nil {
+		perm = info.Mode().Perm()
+	}
+	f, err := os.CreateTemp(filepath.Dir(path), filepath.Base(path)+".tmp*")
+	if err != nil {
+		return err
+	}
+	tmp := f.Name()
+	defer func() {
+		if err != nil {
+			f.Close()
+			os.Remove(tmp)
+		}
+	}()
+
+	if _, err = f.Write(data); err != nil {
+		return err
+	}
+	if err = f.Chmod(perm); err != nil {
+		return err
+	}
+	if err = f.Sync(); err != nil {
+		return err
+	}
+	if err = f.Close(); err != nil {
+		return err
+	}
+	return os.Rename(tmp, path)
 }
 
 // Topology fetches current topology from file
